@@ -30,11 +30,14 @@ const (
 	eOOM      = "err: out of memory"
 )
 
-// namesCount: number of Conflicts attributes of a that carry b's hash.
+// namesCount: number of Conflicts attributes of a that carry b's hash, wherever they stand among
+// a's attributes (own loop over the attribute list: the model must not see the transaction
+// through the accessor the pool uses).
 func namesCount(a, b *transaction.Transaction) int {
 	n := 0
-	for _, at := range a.GetAttributes(transaction.ConflictsT) {
-		if at.Value.(*transaction.Conflicts).Hash == b.Hash() {
+	h := b.Hash()
+	for i := range a.Attributes {
+		if a.Attributes[i].Type == transaction.ConflictsT && a.Attributes[i].Value.(*transaction.Conflicts).Hash == h {
 			n++
 		}
 	}
@@ -60,8 +63,10 @@ func authorOf(t *transaction.Transaction) util.Uint160 {
 }
 
 func oracleID(t *transaction.Transaction) (uint64, bool) {
-	if a := t.GetAttributes(transaction.OracleResponseT); len(a) > 0 {
-		return a[0].Value.(*transaction.OracleResponse).ID, true
+	for i := range t.Attributes {
+		if t.Attributes[i].Type == transaction.OracleResponseT {
+			return t.Attributes[i].Value.(*transaction.OracleResponse).ID, true
+		}
 	}
 	return 0, false
 }
